@@ -75,3 +75,20 @@ fn count_chars_stub(s: &str) -> usize {
     }
     n
 }
+
+// VERIF_SEED (environment, read at compile time of the scratch crate) only selects among a few
+// equivalent CONCRETE choices a harness has to make (key identities, the name of an unrelated
+// member, the opaque token text); everything symbolic stays universally quantified.
+#[allow(dead_code)]
+const fn parse_u64(s: &str) -> u64 {
+    let b = s.as_bytes();
+    let mut i = 0;
+    let mut n = 0u64;
+    while i < b.len() {
+        if b[i] >= b'0' && b[i] <= b'9' { n = n.wrapping_mul(10).wrapping_add((b[i] - b'0') as u64); }
+        i += 1;
+    }
+    n
+}
+#[allow(dead_code)]
+const VERIF_SEED: u64 = match option_env!("VERIF_SEED") { Some(s) => parse_u64(s), None => 0 };
